@@ -11,6 +11,7 @@ import (
 	"regexp"
 	"sort"
 	"strings"
+	"sync"
 
 	"github.com/tdewolff/canvas"
 	"github.com/tdewolff/canvas/renderers"
@@ -194,6 +195,27 @@ func writeWith(w canvas.Writer, text bool) string {
 	return digest(buf.Bytes())
 }
 
+var (
+	familyOnce sync.Once
+	twoFaces   [2]*canvas.FontFace
+)
+
+// loadFamily loads two different font files as the regular and the bold face of ONE family (both
+// font objects then carry the family's name).
+func loadFamily() {
+	familyOnce.Do(func() {
+		fam := canvas.NewFontFamily("serif")
+		if err := fam.LoadFontFile(repoDir()+"/resources/DejaVuSerif.ttf", canvas.FontRegular); err != nil {
+			panic(err)
+		}
+		if err := fam.LoadFontFile(repoDir()+"/resources/EBGaramond12-Regular.otf", canvas.FontBold); err != nil {
+			panic(err)
+		}
+		twoFaces[0] = fam.Face(10, canvas.Black, canvas.FontRegular, canvas.FontNormal)
+		twoFaces[1] = fam.Face(10, canvas.Black, canvas.FontBold, canvas.FontNormal)
+	})
+}
+
 var sharedPattern = []float64{0, 2, 3, 1}
 var sharedPattern2 = []float64{3, 1, 0}
 
@@ -246,6 +268,31 @@ var RenderBodies = []Body{
 		}
 		sort.Strings(tables)
 		return fmt.Sprintf("numGlyphs=%d maxp=%d advance=%v err=%v path=%x tables=%x", sfnt.NumGlyphs(), sfnt.Maxp.NumGlyphs, adv, err, sha1.Sum([]byte(p.String())), sha1.Sum([]byte(strings.Join(tables, " "))))
+	}},
+	{Name: "pdf: regular and bold face of one family in one document, rendered 64 times", Heavy: true, Run: func() string {
+		// two font objects with the same name in one document: the bytes must not depend on the
+		// iteration order of a map (every rendering must give the same digest)
+		loadFamily()
+		seen := map[string]bool{}
+		for k := 0; k < 64; k++ {
+			c := canvas.New(30, 12)
+			ctx := canvas.NewContext(c)
+			ctx.DrawText(2, 9, canvas.NewTextLine(twoFaces[0], "fi Vav", canvas.Left))
+			ctx.DrawText(2, 4, canvas.NewTextLine(twoFaces[1], "bold Vav", canvas.Left))
+			var buf bytes.Buffer
+			if err := renderers.PDF()(&buf, c); err != nil {
+				return "error: " + err.Error()
+			}
+			seen[digest(buf.Bytes())] = true
+		}
+		if len(seen) != 1 {
+			// judged by the body itself: run-alone and after-history results would both vary
+			return fmt.Sprintf("nondeterministic: %d distinct outputs in 64 renderings of the same drawing", len(seen))
+		}
+		for d := range seen {
+			return "1 output in 64 renderings: " + d
+		}
+		return ""
 	}},
 	{Name: "Dash(own line, shared pattern [0 2 3 1])", Run: func() string {
 		// a dash pattern is an argument that callers share between calls (like canvas.Dashed)
